@@ -587,10 +587,10 @@ func (e *Engine) specBinary(env *SpecEnv, x *SExpr) Value {
 	b := e.evalSpecTerm(env, x.Args[1])
 	if a.Sort.K == KF64 || b.Sort.K == KF64 {
 		if a.Sort.K == KInt {
-			a = T("(i2f "+a.S+")", SF64)
+			a = i2fTerm(a)
 		}
 		if b.Sort.K == KInt {
-			b = T("(i2f "+b.S+")", SF64)
+			b = i2fTerm(b)
 		}
 		switch x.Name {
 		case "<":
@@ -712,10 +712,10 @@ func (e *Engine) specEq(env *SpecEnv, a, b Value) Term {
 	if ta, ok := a.(Term); ok {
 		if tb, ok := b.(Term); ok {
 			if ta.Sort.K == KF64 && tb.Sort.K == KInt {
-				tb = T("(i2f "+tb.S+")", SF64)
+				tb = i2fTerm(tb)
 			}
 			if tb.Sort.K == KF64 && ta.Sort.K == KInt {
-				ta = T("(i2f "+ta.S+")", SF64)
+				ta = i2fTerm(ta)
 			}
 			if ta.Sort.K == KF64 {
 				return app(SBool, "f64.eq", ta, tb)
